@@ -30,6 +30,7 @@ CallViolations(e) ==
           THEN {v \in WhitespaceViolations(r) : Wants(e, v[1]) \/ v[1] = "C01"} ELSE {})
   \cup (IF Wants(e, "C10") /\ "ftab" \in DOMAIN r /\ TableCoversOutput(r) /\ ~C10_Units(r) THEN {<<"C10", "units">>} ELSE {})
   \cup (IF Wants(e, "C02") /\ r.wf /\ "tout" \in DOMAIN r THEN {<<"C02", c>> : c \in C02_Violations(r, MLEq)} ELSE {})
+  \cup (IF Wants(e, "C02") /\ r.wf /\ "idents" \in DOMAIN r /\ "tout" \in DOMAIN r /\ ~C02_IdentsKept(r) THEN {<<"C02", "identifier_case">>} ELSE {})
   \cup (IF Wants(e, "C05") /\ r.wf /\ "marks" \in DOMAIN r /\ "tout" \in DOMAIN r
           THEN {<<"C05", IF c = "own_line_inline_anon" THEN "own_line" ELSE c>> : c \in C05_Violations(r)} ELSE {})
   \cup (IF Wants(e, "C07") /\ "regions" \in DOMAIN r /\ ~C07_RegionsKept(r) THEN {<<"C07", "region_verbatim">>} ELSE {})
